@@ -1,2 +1,45 @@
-(* C19 — placeholder until truncation theorems are pinned. *)
+(* C19 — Truncated documents never yield fabricated data (text tape part).
+   Full statement (not yet one theorem):
+     trunc_text : forall d l k, let r := parse (firstn k (render d l)) in r = Err \/ consistent d r
+   Proved here, for ALL inputs and cut points: the scanners never extend, merge or invent a
+   scalar on truncated input, and the parser's exit analysis (where the data may end).  The
+   composition over the whole grammar is carried by props/C19_text.py (every cut point of every
+   generated document, correspondence + oracle). *)
 From JV Require Import Bytes Tables TextTok TextTape.
+From JV.proofs Require Import TruncProofs.
+Open Scope nat_scope.
+
+(* a closing quote found in a truncated string is the real one *)
+Theorem C19_quote_prefix : forall h k i, tq_scan (firstn k h) 0 = Some i -> tq_scan h 0 = Some i.
+Proof. exact tq_scan_prefix. Qed.
+Print Assumptions C19_quote_prefix.
+
+(* a quoted string cut at or before its closing quote is unterminated (an error), never shortened *)
+Theorem C19_quote_cut : forall h k i,
+  tq_scan h 0 = Some i ->
+  (k <= i -> tq_scan (firstn k h) 0 = None) /\ (i < k -> tq_scan (firstn k h) 0 = Some i).
+Proof. exact tq_scan_cut. Qed.
+Print Assumptions C19_quote_cut.
+
+(* the unquoted scalar of a truncated input is a prefix of the original one *)
+Theorem C19_unquoted_cut : forall d k,
+  k <= length d -> 0 < k ->
+  split_at_scalar_fallback_idx (firstn k d) = Nat.min k (split_at_scalar_fallback_idx d).
+Proof. exact unquoted_cut. Qed.
+Print Assumptions C19_unquoted_cut.
+
+(* data that ends between a key and the end of its value is an error *)
+Theorem C19_eof_mid_field : forall s,
+  skip_ws_t (pdata s) = None -> pst_ s <> SKey -> step s = Fail E_TextErr.
+Proof. exact eof_mid_field. Qed.
+Print Assumptions C19_eof_mid_field.
+
+(* data that ends two or more containers deep is an error (one missing bracket is tolerated) *)
+Theorem C19_eof_nested : forall s,
+  skip_ws_t (pdata s) = None -> pst_ s = SKey -> pparent s <> 0 -> slot (ptape s) (pparent s) <> 0 ->
+  step s = Fail E_TextErr.
+Proof. exact eof_nested. Qed.
+Print Assumptions C19_eof_nested.
+
+Example C19_nonvacuous : tq_scan [97; 92; 34; 98; 34; 99]%N 0 = Some 4 /\ tq_scan (firstn 3 [97; 92; 34; 98; 34; 99]%N) 0 = None.
+Proof. split; reflexivity. Qed.
